@@ -206,8 +206,9 @@ class Run:
             "wall_s": round(time.time() - self.t0, 3),
             "violations": nviol,
         }
-        os.makedirs(os.path.join(VERIF, "evidence"), exist_ok=True)
-        with open(os.path.join(VERIF, "evidence", self.prop + ".json"), "w", encoding="utf-8") as f:
+        evdir = os.environ.get("VMC_EVIDENCE_DIR") or os.path.join(VERIF, "evidence")   # (overridden only by tools/try_seed.sh)
+        os.makedirs(evdir, exist_ok=True)
+        with open(os.path.join(evdir, self.prop + ".json"), "w", encoding="utf-8") as f:
             json.dump(ev, f, indent=1, ensure_ascii=True, default=str)
             f.write("\n")
         brief = {k: v for k, v in cov.items() if isinstance(v, (int, float, bool))}
